@@ -167,6 +167,7 @@ class RecurrencePlot(Cached):
 
         self.N: int = 0
         """The number of state vectors (number of lines and rows) of the RP."""
+        self._mut_R: int = 0
         self.R = None
         """The recurrence matrix."""
 
@@ -252,6 +253,19 @@ class RecurrencePlot(Cached):
         self._embedding = to_cy(embedding, DFIELD)
         self.N = self._embedding.shape[0]
         self._mut_embedding += 1
+
+    @property
+    def R(self):
+        """
+        The recurrence matrix. Assigning a new one invalidates the cached
+        line length distributions.
+        """
+        return self._R
+
+    @R.setter
+    def R(self, R):
+        self._R = R
+        self._mut_R += 1
 
     #
     #  Service methods
@@ -843,7 +857,7 @@ class RecurrencePlot(Cached):
     #
 
     @Cached.method(attrs=(
-        "metric", "threshold", "missing_values", "sparse_rqa"))
+        "_mut_R", "metric", "threshold", "missing_values", "sparse_rqa"))
     def diagline_dist(self):
         """
         Return the :index:`frequency distribution of diagonal line lengths
@@ -1068,7 +1082,7 @@ class RecurrencePlot(Cached):
     #
 
     @Cached.method(attrs=(
-        "metric", "threshold", "missing_values", "sparse_rqa"))
+        "_mut_R", "metric", "threshold", "missing_values", "sparse_rqa"))
     def vertline_dist(self):
         """
         Return the :index:`frequency distribution of vertical line lengths
